@@ -151,6 +151,11 @@ static void case_bypass(vh::Rng& r) {
       const std::string reg = lightS ? "|scales-down-to-1GeV" : "|scales>10GeV";
       for (const G& g : gs) {
          const CM3 yoff1 = g.g(a), yoff2 = g.g(b2), yon1 = g.g(c1), yon2 = g.g(c2);
+         // a coupling matrix that vanishes identically (alignment parameter exactly 0: y^A, y^H+ of that fermion type) cannot react to anything
+         if (yoff1.cwiseAbs().maxCoeff() == 0 && yon1.cwiseAbs().maxCoeff() == 0 && yon2.cwiseAbs().maxCoeff() == 0 && yoff2.cwiseAbs().maxCoeff() == 0) { out->count(std::string("running-bypass: coupling identically zero (monitor vacuous): ") + g.n); continue; }
+         // aligned model with zeta_f = 0 exactly: rho_f consists of Delta_f only, which is an input and does not run - nothing to react with
+         const double zf = g.n[1] == 'u' ? b.zeta_u : (g.n[1] == 'd' ? b.zeta_d : b.zeta_l);
+         const bool no_running_part = b.yukawa_type == thdm::Yukawa_type::aligned && zf == 0;
          const bool off_same = same(yoff1, yoff2);                               // running off: no dependence on alpha_s
          const bool on_off_differ = !same(yoff1, yon1);                           // running on: the couplings are taken at the Higgs scale, not at the input masses
          const bool on_dep = !g.quark || !same(yon1, yon2);                      // running on: quark couplings react to alpha_s(MZ)
@@ -159,6 +164,7 @@ static void case_bypass(vh::Rng& r) {
          out->cell(std::string("running-bypass|on-differs-from-off|") + g.n + reg, on_off_differ ? 0 : 1, &w);
          out->cell(std::string("running-bypass|on:quark-couplings-depend-on-alpha_s|") + g.n + reg, on_dep ? 0 : 1, &w);
          if (!off_same) out->fail(std::string("C20:running-not-bypassed-when-disabled:") + g.n, std::string(g.n) + " depends on alpha_s(MZ) although running couplings are disabled", w);
+         if (no_running_part) { out->count(std::string("running-bypass: aligned model with zeta_f = 0 (coupling = Delta_f, no running part; on-clauses vacuous): ") + g.n); continue; }
          if (!on_off_differ || !on_dep) out->fail(std::string("C20:running-bypassed-when-enabled:") + g.n, std::string(g.n) + (on_off_differ ? " does not react to alpha_s(MZ)" : " is the same with running couplings enabled and disabled"), w);
       }
    } catch (const Error&) { ++out->inconclusive; }
